@@ -25,7 +25,10 @@ def run(tier, seed):
              ([(6, 7, '2o')] if tier == 'quick' else [(6, 8, '2o')],
               {'require': 'nested-orth', 'schemes': ('asc',), 'history': False, 'final': False, 'decls': ('given',)}),
              # a listener reads configuration / time / final on every meta-event (in the middle of the steps)
-             ([(2, 4, 1)], {'schemes': ('asc',), 'decls': ('observed',)})]
+             ([(2, 4, 1)], {'schemes': ('asc',), 'decls': ('observed',)}),
+             # charts restructured with move_state (nested composite states first live under the root): every order
+             # of the step relies on depths that must follow the edit
+             ([(4, 5, 1)], {'schemes': ('asc', 'desc'), 'decls': ('moved',)})]
     return schemes.run('C03', tier, seed, PLAN[tier], ['trace', 'order'], {'trace', 'order', 'config'},
                        RULE, ASSUME, decls=('given', 'rev'), send=True, extra_plans=extra)
 
